@@ -45,6 +45,6 @@ StepOps ==
 MInit == Init /\ ulog = <<>>
 MStep == Step /\ ulog' = ulog \o StepOps
 MSpec == MInit /\ [][MStep]_mvars
-Report == (status[1] # "run") => PrintT(ToJson([pid |-> pid, dec |-> dec, ulog |-> ulog, log |-> log, out |-> status,
+Report == (status[1] # "run") => PrintT(ToJson([pid |-> pid, dec |-> dec, inp |-> inp, ulog |-> ulog, log |-> log, out |-> status,
                                                xlog |-> xlog, xnode |-> xnode, oc |-> oc]))
 =============================================================================
